@@ -133,7 +133,7 @@ func c14PasswordLimiter(t *testing.T, rep *verifReport, cfgBurst, cfgRate int, e
 	rep.Extra["password_entry_points_"+label] = len(live)
 	nConc := 400
 	if verifThorough() {
-		nConc = 4000
+		nConc = 20000
 	}
 	var wg sync.WaitGroup
 	callsBefore := atomic.LoadInt64(&be.calls)
